@@ -231,6 +231,8 @@ func runC04(c *Ctx, r *Report) {
 
 	c04r2(c, r, N)
 	c04r3(c, r)
+	c04r7(c, r)
+	c08r6(c, r) // unsorted order must not depend on an earlier sorted search
 }
 
 func c04r2(c *Ctx, r *Report, N int64) {
